@@ -78,6 +78,7 @@ def formula_set(tier):
              ('pred', '>=', ('pow', X, F.C2), Y), ('pred', '>=', ('/', X, F.C2), ('*', Y, F.C2))]
     for a in atoms:
         fs += [a, ('eventually', (0, 1), a), ('and', ('next', a), F.PY), ('always', (1, 2), ('or', a, ('next', a)))]
+    fs += [f for f in F.patterns() if F.has_op(f, F.FUTURE) and not F.is_temporal_unbounded_future(f)]
     out, seen = [], set()
     for f in fs:
         if f not in seen:
